@@ -93,6 +93,27 @@ def run(chk):
             chk.fail("BH number and mass per bin equal those of the full model evolved to the same age with full retention", label,
                      dict(max_dN=float(dN.max()), max_dM=float(dM.max()), N_short=float(popr.N.sum()), N_full=float(full.Nr.BH[0].sum())),
                      bh_progenitors_span_imf_segments=bool(spans))
+        # the alternative constructor forwards every option: same bins, numbers and masses as from_IMF with the same options
+        with warnings.catch_warnings():
+            warnings.simplefilter("ignore")
+            for kwx in (kw, dict(kw, binning_method="split_linear"), dict(kw, binning_breaks=[cf["mb"][0], 2.0, cf["mb"][-1]])):
+                if "binning_breaks" in kwx and not isinstance(cf["nbins"], int) and len(cf["nbins"]) != 2:
+                    kwx = dict(kwx); kwx.pop("binning_breaks")
+                    kwx["binning_method"] = "split_log"
+                try:
+                    p_imf = emf.InitialBHPopulation.from_IMF(masses.PowerLawIMF(cf["mb"], cf["a"], N0=N0), cf["nbins"], cf["feh"], N0=N0, natal_kicks=False, **kwx)
+                    p_pl = emf.InitialBHPopulation.from_powerlaw(cf["mb"], cf["a"], cf["nbins"], cf["feh"], N0=N0, natal_kicks=False, **kwx)
+                except Exception as e:  # noqa
+                    chk.notes.append("from_powerlaw/from_IMF option comparison raised %s for %s" % (type(e).__name__, sorted(kwx)))
+                    continue
+                chk.count("from_powerlaw vs from_IMF option comparisons")
+                same = (len(p_imf.N) == len(p_pl.N) and np.array_equal(np.asarray(p_imf.bins.lower), np.asarray(p_pl.bins.lower))
+                        and np.array_equal(p_imf.N, p_pl.N) and np.array_equal(p_imf.M, p_pl.M))
+                if not same:
+                    chk.fail("BH number and mass per bin equal those of the full model (from_powerlaw forwards the same options as from_IMF)",
+                             dict(label, options={k_: (v_ if not isinstance(v_, list) else list(v_)) for k_, v_ in kwx.items()}),
+                             dict(nbins_from_IMF=int(len(p_imf.N)), nbins_from_powerlaw=int(len(p_pl.N)),
+                                  upper_from_IMF=[float(x) for x in np.asarray(p_imf.bins.upper)[:4]], upper_from_powerlaw=[float(x) for x in np.asarray(p_pl.bins.upper)[:4]]))
         # the same with an IMF object whose own N0 differs from the N0 argument (default N0 = 1, and from_M0)
         for imf2, lab in ((masses.PowerLawIMF(cf["mb"], cf["a"]), "IMF(N0=1)"), (masses.PowerLawIMF.from_M0(cf["mb"], cf["a"], 3.3e5), "IMF.from_M0")):
             with warnings.catch_warnings():
